@@ -38,8 +38,8 @@ pub fn cfg() -> GenCfg {
 type Rng = ((u64, u64), (u64, u64));
 
 fn to_rng(r: &Rendered, a: usize, b: usize) -> Rng {
-    let (l1, c1) = r.line_col(a);
-    let (l2, c2) = r.line_col(b);
+    let (l1, c1) = r.line_col16(a);
+    let (l2, c2) = r.line_col16(b);
     ((l1 as u64 - 1, c1 as u64 - 1), (l2 as u64 - 1, c2 as u64 - 1))
 }
 
@@ -88,7 +88,16 @@ pub struct Prepared {
 
 pub fn prepare(entropy: &[u32]) -> Option<Prepared> {
     let b = build(entropy, &cfg());
-    let (proj, rs) = b.prog.render();
+    // one case in three: comments (also with characters that take two UTF-16 code units) between the tokens
+    let h = crate::engine::hash_of(&entropy.to_vec());
+    let (proj, rs) = if h % 3 == 0 {
+        let seed: Vec<u32> = entropy.iter().map(|v| v.rotate_left(5) ^ 0xc2b2_ae35).collect();
+        let tc = crate::gen::trivia::TriviaCfg { vary: 20, case_flips: false, crlf: false, non_ascii: true, ..crate::gen::trivia::TriviaCfg::clean() };
+        let mut f = crate::gen::trivia::RandFiller::new(&seed, tc);
+        b.prog.render_with(&mut f)
+    } else {
+        b.prog.render()
+    };
     // the program must assemble and agree with the reference model (so that the model's binding is the build's)
     let a = guarded(|| assemble(&proj, AsmOptions::default())).ok()?;
     if !a.ok() {
@@ -105,7 +114,14 @@ pub fn prepare(entropy: &[u32]) -> Option<Prepared> {
     let consts = crate::model::expand::pure_consts(&b.prog);
     crate::props::c04::invoked_macros(b.prog.main(), true, &consts, &mut invoked);
     let dead = dead_ranges(&b.prog, &rendered, &invoked);
-    Some(Prepared { dead, text: proj.main_text().to_string(), features: b.stats.features.clone(), prog: b.prog, rendered, bindings, invoked })
+    let mut features = b.stats.features.clone();
+    if h % 3 == 0 {
+        features.insert("comments_between_tokens".into());
+    }
+    if proj.main_text().chars().any(|c| c.len_utf16() == 2) {
+        features.insert("characters_of_two_utf16_units".into());
+    }
+    Some(Prepared { dead, text: proj.main_text().to_string(), features, prog: b.prog, rendered, bindings, invoked })
 }
 
 /// names of macros whose body contains the byte offset
@@ -149,6 +165,8 @@ pub fn prop(c: &Case, log: &mut CaseLog) -> Verdict {
     log.label_if(p.bindings.uses.iter().any(|u| u.in_macro), "use-in-macro");
     log.label_if(p.bindings.uses.iter().any(|u| u.in_string), "use-in-string");
     log.label_if(has_test(&p), "use-in-test");
+    log.label_if(p.features.contains("comments_between_tokens"), "comments-between-tokens");
+    log.label_if(p.features.contains("characters_of_two_utf16_units"), "characters-of-two-utf16-units");
     log.nontrivial = nuses >= 3;
     let text = p.text.clone();
     let res = with_server(|s| -> Result<Verdict, LspErr> {
@@ -176,7 +194,7 @@ pub fn prop(c: &Case, log: &mut CaseLog) -> Verdict {
                     continue;
                 }
                 let mid = a + (b - a) / 2;
-                let (l, col) = r.line_col(mid);
+                let (l, col) = r.line_col16(mid);
                 let resp = s.client.request("textDocument/definition", json!({"textDocument": {"uri": uri}, "position": {"line": l - 1, "character": col - 1}}), t)?;
                 let want = to_rng(r, drange.0, drange.1);
                 let got: Vec<Rng> = resp.as_array().map(|v| v.iter().filter_map(|x| json_rng(&x["targetSelectionRange"]).or_else(|| json_rng(&x["range"]))).collect()).unwrap_or_default();
@@ -245,7 +263,7 @@ pub fn prop(c: &Case, log: &mut CaseLog) -> Verdict {
                 .collect();
             // `super` path components are no identifiers: whatever the server says about them is not judged here
             let supers: BTreeSet<Rng> = p.bindings.uses.iter().flat_map(|u| u.path.iter().zip(u.comps.iter()).filter(|(c, _)| *c == "super").map(|(_, ((x, y), _))| to_rng(r, *x, *y)).collect::<Vec<_>>()).collect();
-            let (l, col) = r.line_col(a + (b - a) / 2);
+            let (l, col) = r.line_col16(a + (b - a) / 2);
             let pos = json!({"line": l - 1, "character": col - 1});
             for incl in [true, false] {
                 let resp = s.client.request("textDocument/references", json!({"textDocument": {"uri": uri}, "position": pos, "context": {"includeDeclaration": incl}}), t)?;
